@@ -200,3 +200,17 @@ def fuzz_campaign(ctx, oracle, runs, max_len=512):
             raise HarnessError(f"fuzz campaign failed without a violation file (exit {p.returncode}): {p.stderr[-1500:]}")
     finally:
         shutil.rmtree(out, ignore_errors=True)
+
+
+def primitive_sweep(ctx, L, judge):
+    """Every constrained primitive type on its own x every representative value that is NOT allowed (next to the allowed
+    intervals, 0, the width limits, single bits, a high bit on a member, members of the base type the type leaves out and
+    their neighbours) and every allowed interval end: `judge(type name, bytes, allowed?)`; stops at the first False."""
+    constrained = [t for t in sorted(L.prims) if L.is_constrained(t)]
+    for t in ctx.mine(constrained):
+        w, signed = L.width(t), L.signed(t)
+        vals = [(v, False) for v in L.outside_values(t) + L.far_outside_values(t)] + [(v, True) for lo, hi in L.allowed(t) for v in (lo, hi)]
+        for v, ok in vals:
+            ctx.count("primitive-sweep")
+            if judge(t, int(v).to_bytes(w, "big", signed=signed), ok) is False:
+                return
